@@ -246,6 +246,20 @@ def run(ctx, chk):
         else:
             chk.ok('realloc-table', key, lst[0][1], '%d path(s) conform' % len(lst), func=fr)
     _emit(chk, 'header-offset', 'hdr:realloc-old-size', problems, E.f, 'old size read at pointer - H', fr)
+    # the size == 0 row again with size bound to the constant 0: every feasible path must free and return NULL
+    def preset(st):
+        st.env[size] = Lin.const(0)
+        st.notes[('nonnull', ptr)] = True
+        st.notes[('nonnull', E.f.params[0])] = True
+    E0 = Explorer(ctx, fr, preset)
+    bad0 = None
+    for (st, rv, loc) in E0.paths:
+        frees = [e for e in st.events if e[0] == 'mcall' and e[1] == 'free']
+        if not (len(frees) == 1 and isinstance(rv, Ptr) and rv.base == 'NULL'):
+            bad0 = (loc, 'with ptr != NULL and size == 0 a path returns %r after %d free call(s); realloc(p, 0) must free p and '
+                    'return NULL' % (rv, len(frees)))
+    _emit(chk, 'realloc-table', 'realloc:size-zero-concrete', [bad0] if bad0 else [], E.f, 'all %d paths with size = 0 free and return NULL'
+          % len(E0.paths), fr)
     # ---------------- overflow guards (calloc, reallocarray)
     for member in ('calloc', 'reallocarray'):
         fn = inst[member]
